@@ -118,12 +118,14 @@ def peptide(seq, rng, conf=None, hydrogens="none", cterm_oxt=True):
 def nucleic(seq, rng, dna=False, first_phosphate=True, hydrogens="none"):
     """seq: base letters from A,C,G,U,T.  Template nucleotides on a helical screw (crude inter-residue geometry)."""
     out = []
+    # RNA strands are named either RA/RC/RG/RU or, as in wwPDB v3 files, A/C/G/U (one style per strand)
+    modern = (not dna) and rng.random() < 0.5
     for i, letter in enumerate(seq):
         if letter == "T":
             base, resn = "DT", "DT"
         else:
             base = "R" + letter
-            resn = ("D" + letter) if dna else base
+            resn = ("D" + letter) if dna else (letter if modern else base)
         t = _tpl(base)
         ang = math.radians(33.0 * i)
         Rz = np.array([[math.cos(ang), -math.sin(ang), 0], [math.sin(ang), math.cos(ang), 0], [0, 0, 1]])
